@@ -154,6 +154,27 @@ def s_gate(rng, nval):
                edges={nm: list(range(-5, 10))})
 
 
+def s_gate_shared_cond(rng, nval):
+    """Several bundles gated by one and the same condition (written twice, or named once): each result is its own
+    bundle, whatever the optimiser shares."""
+    b = B(rng)
+    b.literal("r")
+    b.literal("q")
+    nm, _t = b.scalar(None)
+    thr = rng.randint(-3, 8)
+    op = rng.choice(CMP_OPS)
+    if rng.random() < 0.5:
+        cond1 = cond2 = ["c", op, ["v", nm], ["n", thr]]
+    else:
+        b.prog.append(["sig", "ok", ["c", op, ["v", nm], ["n", thr]]])
+        cond1 = cond2 = ["v", "ok"]
+    b.prog.append(["bun", "x", ["bg", cond1, ["v", "r"]]])
+    b.prog.append(["bun", "y", ["bg", cond2, ["v", "q"]]])
+    if rng.random() < 0.4:
+        b.prog.append(["bun", "z", ["bg", cond1, ["v", "r"]]])      # the same gate twice: may be shared
+    return _mk(b.prog, "gating_shared_condition", rng, nval, edges={nm: list(range(-5, 10))})
+
+
 def s_anyall(rng, nval):
     b = B(rng)
     b.literal("r", k_const=rng.randint(0, 2), k_in=rng.randint(1, 3), k_comp=0)
@@ -320,7 +341,7 @@ def s_compose(rng, nval):
     return _mk(b.prog, "composed_expressions", rng, nval, small=True, edges=edges)
 
 
-STRATA = [(s_literal, 3), (s_arith, 6), (s_filter, 5), (s_gate, 3), (s_anyall, 3), (s_select, 2), (s_chain, 4),
+STRATA = [(s_literal, 3), (s_arith, 6), (s_filter, 5), (s_gate, 3), (s_gate_shared_cond, 3), (s_anyall, 3), (s_select, 2), (s_chain, 4),
           (s_shared_source, 1), (s_compose, 8), (s_nested_member_scalar, 3)]
 
 
